@@ -11,7 +11,7 @@ from ..core import canon
 
 PROP = "C01"
 NAME = "c01_problem"
-RUNS = {"quick": 5000, "thorough": 250000}
+RUNS = {"quick": 5000, "thorough": 1000000}
 TIMEOUT = 120
 CHUNK = 100
 RULE = (
